@@ -278,7 +278,7 @@ def rand_spec(profile, seed):
     if profile == "sto":
         # stored-event classes (size / alignment / copy-move traits, instance-counted): the deferred ones first
         big = list(dict.fromkeys(dset + rnd.sample(trig[:nev], 2)))
-        events = [({"name": e, "size_class": rnd.randint(1, 6)} if e in big else e) for e in events]
+        events = [({"name": e, "size_class": rnd.randint(1, 7)} if e in big else e) for e in events]
     sp = {"name": name, "events": events, "machines": machines}
     if profile == "ser":
         sp["serialize"] = True
